@@ -61,4 +61,9 @@ CHECKS = {
   text='One real controller step on the shipped test equations with 128 values z on a circle gives R(z); its Taylor coefficients (FFT) must equal 1/m! through min(k,p) for every node family x type x M (<=4 quick, <=7 thorough), implicit/explicit/IMEX preconditioner names, k up to p+2, both end-point modes; '
        'converged iterations must equal the collocation stability function pointwise; every RungeKutta/RungeKuttaIMEX class must reach its documented order (IMEX with 4 splittings) and primary-minus-embedded must vanish below get_update_order().',
   note='Only ">= order" is asserted. Coefficients whose rounding term exceeds 2% of 1/m! are counted as unresolved (affects m>=13 only). Radius 0.4 x smallest pole of the sweep. A new RK class without an entry in the order table is reported, not skipped.'),
+ 'C07': dict(
+  technique='exhaustive enumeration of per-(step, iteration) convergence patterns within bounds (scripted-residual sweeper) x controller configurations, random patterns and force flags beyond; invariants after every pfasst() call and a regular-expression grammar over the callback stream',
+  text='For each pattern the harness wraps the controller instance\'s pfasst/send_full/recv_full and checks after every stage call: one common stage of running steps, steps finish in time order, a finished step (u, f, uend on all levels, iter) never changes and is final when its end callback fires, '
+       'every receive consumes the latest matching send (level, iteration, sender) exactly once, no protocol error, bounded number of stage calls; callbacks per step match S(pq)?(i(ab)+j)*E, all_to_done gives equal iteration counts, logged niter == callbacks.',
+  note='Quick: all patterns for (P,K) in {(1,3),(2,2),(3,1),(2,3)} on one level and P*(K+1)<=6 on 2-3 levels; thorough up to (4,3)/(3,4). Liveness beyond the bounded call count is not claimed.'),
 }
